@@ -22,6 +22,8 @@ def classify(unit, fn, e, depth=0):
     k = e['k']
     if k in ('CXXMemberCallExpr', 'CallExpr') and method_name(e) in ('tupleLookup', 'lookup'):
         return 'lookup'
+    if k == 'CXXMemberCallExpr' and method_name(e) == 'find' and 'Cache<' in unit.ty(strip(e.get('obj')) or e.get('obj') or {'t': -1}):
+        return 'maybe-null'      # the non-inserting query of the tuple cache: null when no live rule holds an equal tuple
     if k == 'CXXNewExpr':
         return 'fresh'
     if k == 'CallExpr' and e.get('q') == 'std::make_shared':
@@ -71,7 +73,9 @@ def run(unit, em):
                 continue
             cl = classify(unit, fn, arg)
             txt = unit.text(c, 80)
-            if cl == 'fresh':
+            if cl == 'maybe-null':
+                em.violation(c, txt, 'the TuplePtr comes from the non-inserting Cache::find(), which returns null when no live rule of any automaton holds an equal tuple: a null pointer is stored in the tuple set (the rule is missing and every iteration over the set dereferences null)')
+            elif cl == 'fresh':
                 em.violation(c, txt, 'a TuplePtr built with new/make_shared is stored without going through tupleLookup(): ContainsTransition and the tuple sets compare by address, the rule would be missed or duplicated')
             elif cl == 'unknown':
                 em.unknown(c, txt, 'origin of the stored TuplePtr not resolved')
